@@ -26,8 +26,8 @@ COMPLEMENT = {">=": "<", ">": "<=", "<=": ">", "<": ">="}
 
 POS = Sym("pos", ("attr", "array", "sorted", "notnone", "rawdtype"))
 NEG = Sym("neg", ("attr", "array", "sorted", "notnone", "rawdtype"))
-EP = Sym("Ep", ("int", "attr_scalar", "notnone"))
-EN = Sym("En", ("int", "attr_scalar", "notnone"))
+EP = Sym("Ep", ("int", "attr_scalar", "notnone", "nonneg"))   # declared easy counts are non-negative integers (the quantifier of every property)
+EN = Sym("En", ("int", "attr_scalar", "notnone", "nonneg"))
 T = Sym("t", ("param", "array", "notnone"))
 
 
